@@ -302,7 +302,14 @@ async fn run_inner(sc: &C17Scenario, path: &std::path::Path) -> u64 {
             4 => {
                 trace!("get and return without sending anything");
                 w(|w| w.log.push("get-unused".into()));
-                match pool.timeout_get(&nb).await {
+                let conns_before = w(|w| w.conns.len());
+                let r = pool.timeout_get(&nb).await;
+                // a connection dialled by this call has been handed out once now
+                // (it is not asked for its identity: that would be a command)
+                for id in conns_before..w(|w| w.conns.len()) {
+                    handed_before.insert(id);
+                }
+                match r {
                     Ok(c) => drop(c),
                     Err(PoolError::Backend(e)) => {
                         trace!("  -> backend error {}", e);
